@@ -54,7 +54,7 @@ class Arm:
         return self.test.lineno
 
 
-CARRIED = ("incontains", "child_permission", "blocklevel", "associations")
+CARRIED = ("incontains", "child_permission", "blocklevel", "associations")   # default; recomputed per run (Cascade.carried)
 
 
 class Cascade:
@@ -62,10 +62,25 @@ class Cascade:
         self.py = py
         fn = py.func("FortranContainer.__init__")
         self.fn = fn
-        loops = [n for n in fn.body if isinstance(n, ast.For) and isinstance(n.iter, ast.Name) and n.iter.id == "source"]
+        params = [a.arg for a in fn.args.args]
+        loops = [n for n in fn.body if isinstance(n, ast.For) and isinstance(n.iter, ast.Name) and n.iter.id in params
+                 and isinstance(n.target, ast.Name)]
         if len(loops) != 1:
-            raise AnalysisError("FortranContainer.__init__: statement loop `for line in source` not found")
+            raise AnalysisError("FortranContainer.__init__: statement loop `for <line> in <source parameter>` not found")
         self.loop = loops[0]
+        self.line_var = self.loop.target.id
+        self.lower_var = "line_lower"
+        for st in self.loop.body:
+            if isinstance(st, ast.Assign) and isinstance(st.targets[0], ast.Name) and isinstance(st.value, ast.Call) \
+                    and isinstance(st.value.func, ast.Attribute) and st.value.func.attr in ("lower", "casefold") \
+                    and ast.unparse(st.value.func.value) == self.line_var:
+                self.lower_var = st.targets[0].id
+        # loop-carried state: local names initialised before the loop and assigned again inside it
+        before = {t.id for st in fn.body[:fn.body.index(self.loop)] for n in ast.walk(st) if isinstance(n, (ast.Assign, ast.AnnAssign))
+                  for t in (n.targets if isinstance(n, ast.Assign) else [n.target]) if isinstance(t, ast.Name)}
+        inside = {t.id for n in ast.walk(self.loop) if isinstance(n, (ast.Assign, ast.AugAssign))
+                  for t in (n.targets if isinstance(n, ast.Assign) else [n.target]) if isinstance(t, ast.Name)}
+        self.carried = tuple(sorted(before & inside)) or CARRIED
         self.pre: List[ast.stmt] = []
         chain = None
         for st in self.loop.body:
@@ -114,10 +129,10 @@ class Cascade:
             return self._atom(arm, t.value)
         if isinstance(t, ast.Call) and isinstance(t.func, ast.Attribute) and t.func.attr in ("match", "search") \
                 and isinstance(t.func.value, ast.Attribute) and ast.unparse(t.func.value.value) == "self" \
-                and len(t.args) == 1 and ast.unparse(t.args[0]) == "line":
+                and len(t.args) == 1 and ast.unparse(t.args[0]) == self.line_var:
             arm.regexes.append((t.func.value.attr, t.func.attr))
             return True
-        if isinstance(t, ast.Compare) and len(t.ops) == 1 and ast.unparse(t.left) == "line_lower":
+        if isinstance(t, ast.Compare) and len(t.ops) == 1 and ast.unparse(t.left) == self.lower_var:
             if isinstance(t.ops[0], ast.Eq) and isinstance(t.comparators[0], ast.Constant):
                 arm.literals.append(t.comparators[0].value)
                 return True
@@ -154,7 +169,7 @@ class Cascade:
                     visit(st.body, conds + [t])
                     visit(st.orelse, conds + [f"not ({t})"])
                     for n in ast.walk(st.test):
-                        if isinstance(n, ast.Name) and n.id in CARRIED:
+                        if isinstance(n, ast.Name) and n.id in self.carried:
                             arm.reads.add(n.id)
                     continue
                 if isinstance(st, (ast.For, ast.While, ast.With, ast.Try)):
@@ -176,7 +191,7 @@ class Cascade:
                 if isinstance(st, (ast.Assign, ast.AugAssign)):
                     tg = st.targets if isinstance(st, ast.Assign) else [st.target]
                     for t in tg:
-                        if isinstance(t, ast.Name) and t.id in CARRIED:
+                        if isinstance(t, ast.Name) and t.id in self.carried:
                             arm.writes.add(t.id)
                         if isinstance(t, ast.Attribute) and ast.unparse(t) == "self.permission":
                             arm.writes.add("self.permission")
@@ -184,7 +199,7 @@ class Cascade:
 
         def scan_expr(node, conds, st):
             for n in ast.walk(node):
-                if isinstance(n, ast.Name) and n.id in CARRIED and isinstance(n.ctx, ast.Load):
+                if isinstance(n, ast.Name) and n.id in self.carried and isinstance(n.ctx, ast.Load):
                     arm.reads.add(n.id)
                 if not isinstance(n, ast.Call):
                     continue
@@ -216,10 +231,18 @@ class Cascade:
                                     any(isinstance(x, ast.Name) and x.id == var for x in ast.walk(m.args[0])):
                                 dest = (dest + "|" if dest else "") + call_name(m).split(".")[1]
                     perm = None
-                    if len(n.args) >= 4:
-                        perm = ast.unparse(n.args[3])
+                    r = py.resolve_method(last, "__init__")
+                    pidx = 3
+                    pname = "inherited_permission"
+                    if r is not None:
+                        ps = [a.arg for a in r[1].args.args][1:]
+                        cand = [i for i, x in enumerate(ps) if "permission" in x]
+                        if cand:
+                            pidx, pname = cand[0], ps[cand[0]]
+                    if len(n.args) > pidx:
+                        perm = ast.unparse(n.args[pidx])
                     for k in n.keywords:
-                        if k.arg in ("inherited_permission", "permission"):
+                        if k.arg in (pname, "inherited_permission", "permission"):
                             perm = ast.unparse(k.value)
                     arm.constructs.append(Construct(last, dest, perm, list(conds), n))
                 if cn in ("line_to_variables", "get_mod_procs"):
@@ -227,7 +250,17 @@ class Cascade:
                     p = py.parents.get(n)
                     if isinstance(p, ast.Call) and call_name(p).startswith("self."):
                         dest = call_name(p).split(".")[1]
-                    perm = ast.unparse(n.args[2]) if cn == "line_to_variables" and len(n.args) > 2 else None
+                    perm = None
+                    if cn == "line_to_variables":
+                        ltv = py.functions.get("sourceform.line_to_variables")
+                        ps = [a.arg for a in ltv.args.args] if ltv is not None else []
+                        cand = [i for i, x in enumerate(ps) if "permission" in x]
+                        pi = cand[0] if cand else 2
+                        if len(n.args) > pi:
+                            perm = ast.unparse(n.args[pi])
+                        for k in n.keywords:
+                            if "permission" in (k.arg or ""):
+                                perm = ast.unparse(k.value)
                     arm.constructs.append(Construct(
                         "FortranVariable" if cn == "line_to_variables" else "FortranModuleProcedureReference",
                         dest, perm, list(conds), n))
